@@ -1142,6 +1142,18 @@ MUTATORS = ('append', 'extend', 'insert', 'pop', 'remove', 'clear', 'update', 's
             'fill', 'resize', 'put', 'itemset', 'setflags', 'byteswap')
 
 
+def _is_access_path(e):
+    """a name, or attribute / constant-or-name subscript steps from one: evaluating it again gives the same object (or an equivalent
+    view) as long as no step of the path is rebound"""
+    if isinstance(e, (ast.Name, ast.Constant)):
+        return True
+    if isinstance(e, ast.Attribute):
+        return _is_access_path(e.value)
+    if isinstance(e, ast.Subscript) and isinstance(e.slice, (ast.Name, ast.Constant)):
+        return _is_access_path(e.value)
+    return False
+
+
 def propagate_new_temporaries(fn, pinfn):
     """a local that the pinned function does not have, bound exactly once by `name = <call-free expression>` and read only in later
     statements of the same block (or nested in them), with nothing the expression reads being rebound or changed in place in
@@ -1206,7 +1218,7 @@ def propagate_new_temporaries(fn, pinfn):
             read = set(x.id for x in ast.walk(st.value) if isinstance(x, ast.Name))
             chains = set(ast.unparse(x) for x in ast.walk(st.value) if isinstance(x, (ast.Attribute, ast.Subscript)))
             clash = False
-            alias_only = _is_trivial_arg(st.value)          # names an object; what happens *to* the object does not matter
+            alias_only = _is_access_path(st.value)          # names an object; what happens *to* the object does not matter
             for s2 in region:
                 for x in ast.walk(s2):
                     if isinstance(x, ast.Name) and isinstance(x.ctx, (ast.Store, ast.Del)) and x.id in read:
@@ -1215,6 +1227,10 @@ def propagate_new_temporaries(fn, pinfn):
                         t = ast.unparse(x)
                         if any(c == t or c.startswith(t + '.') or c.startswith(t + '[') for c in chains):
                             clash = True            # the attribute (or an object on the way to it) is rebound
+                    if alias_only and isinstance(x, ast.Subscript) and isinstance(x.ctx, (ast.Store, ast.Del)):
+                        t = ast.unparse(x)
+                        if any(c == t or c.startswith(t + '.') or c.startswith(t + '[') for c in chains):
+                            clash = True            # an item on the way is replaced
                     if not alias_only:
                         if isinstance(x, ast.Subscript) and isinstance(x.ctx, (ast.Store, ast.Del)):
                             t = ast.unparse(x.value)
